@@ -74,10 +74,12 @@ def grid(tier):
         cases.append({"kind": "range", "lo": 3 * 2 ** k - 64, "hi": 3 * 2 ** k + 64})
     for k in range(0, 41):
         cases.append({"kind": "auto", "sizes": [1000 * 2 ** k + d for d in (-2, -1, 0, 1, 2)] + [2 ** k - 1, 2 ** k, 2 ** k + 1]})
+    # the automatic choice through the creators themselves, for two payload shapes: the larger payload must not get the smaller piece
+    cases.append({"kind": "shapes"})
     return cases
 
 
-ODD_STRINGS = ["+16384", " 16384", "16384 ", "1_6384", "0x4000", "1e5", "16384.0", "2**14", "١٦٣٨٤", "１６３８４", "²", "½", "Ⅷ", "³²⁷⁶⁸",
+ODD_STRINGS = ["false", "False", "true", "no", "off", "+16384", " 16384", "16384 ", "1_6384", "0x4000", "1e5", "16384.0", "2**14", "١٦٣٨٤", "１６３８４", "²", "½", "Ⅷ", "³²⁷⁶⁸",
                "-16384", "-14", "--14", "", " ", "abc", "14a", "0", "00014", "016384", "१४", "௧", "16,384", "16384\n", "\t14", "1 4", "14.0", "inf", "nan",
                "True", "None"]
 
@@ -154,6 +156,8 @@ def run_case(case):
         return Outcome(None, nontrivial, ["range"], subcases=n)
     if case["kind"] == "auto":
         return run_auto(case)
+    if case["kind"] == "shapes":
+        return run_shapes()
     val = case["value"]
     raw = int(val["v"]) if val["t"] == "int" else val["v"]
     exp = expected(raw) if val["t"] == "int" else expected_str(raw)
@@ -168,7 +172,7 @@ def run_case(case):
         if route == "cli" and (s.startswith("-") and not re.fullmatch(r"-[0-9]+", s)):
             route = "norm"
         if route == "config" and (s != s.strip() or "\n" in s or "\r" in s or "%" in s or s == "" or s[:1] in "#;" or any(ord(c) < 32 for c in s)
-                                  or s.lower() in ("true", "false") or "=" in s or ":" in s):
+                                  or "=" in s or ":" in s):
             route = "norm"
     if (route == "lib" and not raw) or raw == "":
         route = "norm"
@@ -274,3 +278,36 @@ def run_auto(case):
             if p != q:
                 return Outcome(Violation("C12:auto:dir", "path_piece_length of a directory holding %d bytes = %r, get_piece_length(total) = %r" % (total, p, q)), True, classes)
     return Outcome(None, True, classes, subcases=len(sizes))
+
+
+def run_shapes():
+    """One 17,000,000-byte file versus 1,100 files of 16,000 bytes (17,600,000 in total), no piece length given."""
+    classes = ["auto", "shapes"]
+    with sandbox.Scratch("c12s") as scr:
+        a = os.path.join(scr, "one")
+        os.makedirs(a)
+        with open(os.path.join(a, "big.bin"), "wb") as fd:
+            fd.truncate(17000000)
+        b = os.path.join(scr, "many")
+        os.makedirs(b)
+        chunk = bytes(16000)
+        for i in range(1100):
+            with open(os.path.join(b, "f%04d" % i), "wb") as fd:
+                fd.write(chunk)
+        for creator, kw in (("TorrentFile", {}), ("TorrentFile", {"align": True}), ("TorrentFileV2", {}), ("Assembler2", {}), ("Assembler3", {})):
+            rec = []
+            for path in (a, b):
+                target.reset()
+                out = os.path.join(scr, "o-%s-%s-%s.torrent" % (creator, "a" if kw else "n", os.path.basename(path)))
+                try:
+                    target.create_lib(creator, path, out, **kw)
+                    rec.append(vmeta.Meta.from_file(out).info.get(b"piece length"))
+                except Exception as e:  # noqa: BLE001
+                    return Outcome(Violation("C12:auto:shapes:exception", "%s raised %r" % (creator, e)), True, classes)
+            for p in rec:
+                if not isinstance(p, int) or p & (p - 1) or not (2 ** 14 <= p <= 2 ** 24):
+                    return Outcome(Violation("C12:auto:shapes:range", "%s recorded automatic piece length %r" % (creator, p)), True, classes)
+            if rec[1] < rec[0]:
+                return Outcome(Violation("C12:auto:shapes:not-monotone", "%s%s: 17,000,000 bytes got %d, the larger payload of 17,600,000 bytes got %d" % (
+                    creator, " (align)" if kw else "", rec[0], rec[1])), True, classes)
+    return Outcome(None, True, classes, subcases=10)
